@@ -159,7 +159,7 @@ static Verdict c08_check(const KV &c, Ctx &ctx) {
     reqs[(size_t)i].S = reqs[(size_t)i].S.substr(0, reqs[(size_t)i].S.find('\0'));
     Cost k = decode_cost(reqs[(size_t)i].S, reqs[(size_t)i].P.size());
     k.units *= 30;  // ThreadSanitizer slow-down and repeated use
-    if (passwd_safe(reqs[(size_t)i].S) && reqs[(size_t)i].P.size() < 512 && !affordable(k, ctx.tier)) {
+    if (c.geti("bigregion") == 0 && passwd_safe(reqs[(size_t)i].S) && reqs[(size_t)i].P.size() < 512 && !affordable(k, ctx.tier)) {
       ctx.st.skipped_cost++;
       return "";
     }
@@ -235,6 +235,7 @@ static Verdict c08_check(const KV &c, Ctx &ctx) {
       ctx.st.cls(std::string("c08-concurrent/") + METHOD_NAME[kv.first]);
     }
   if (threads_first && overlapping && shared_methods) printf("C08-COLD nontrivial %d threads x %zu calls, %d overlapping thread pairs, %d methods run by >= 2 threads\n", T, per, overlapping, shared_methods);
+  if (c.geti("bigregion") && overlapping) ctx.st.cls("c08/large-region");
   if (overlapping && shared_methods) {
     if (ctx.st.nontriv(fnv(c.serialize())) && ctx.st.samples.size() < ctx.st.sample_cap) ctx.st.sample(std::to_string(T) + " threads x " + std::to_string(per) + " calls, " + std::to_string(overlapping) + " overlapping thread pairs, " + std::to_string(shared_methods) + " methods run by >= 2 threads" + (g_use_barrier ? ", barrier start" : ""));
     ctx.st.cls(std::string("c08/T") + (T <= 3 ? "2-3" : T <= 8 ? "4-8" : "9-16") + (g_use_barrier ? "/barrier" : "/free"));
@@ -270,6 +271,34 @@ static int c08_run(Ctx &ctx) {
     c.set("ops", ops);
     c.set("gaps", g::rbytes((size_t)T, 0));
     c.seti("cold", g::coin(1, 3));
+    if (g::coin(1, 40)) {
+      // a small workload around regions of 32 MiB and more (above yescrypt's huge-page threshold, where the mapping
+      // layer takes other paths): 2-4 threads alternate one such hash with a cheap one of the same family; bounded by
+      // construction, so it is exempt from the cost governor
+      KV b;
+      Method fm = g::oneof<Method>({M_YESCRYPT, M_GOST, M_SCRYPT});
+      Bytes big = fm == M_SCRYPT ? Bytes("$7$") + Bytes(1, A64[15]) + fixed30_encode(8) + fixed30_encode(1) + g::chars_from(A64, 12)
+                                 : Bytes(METHOD_TAG[fm]) + "j" + yvar_encode(15, 1) + yvar_encode(8, 1) + "$" + b64le_encode(g::rbytes(12, 0));
+      g::SOpts so;
+      b.seti("bigregion", 1);
+      b.seti("nreq", 2);
+      b.set("s0", big);
+      b.set("p0", g::phrase(40));
+      b.set("s1", g::valid_setting(g::oneof<Method>({M_YESCRYPT, M_GOST, M_SCRYPT}), so).s);
+      b.set("p1", g::phrase(40));
+      int Tb = (int)g::pick(2, 4);
+      b.seti("threads", Tb);
+      b.seti("barrier", 1);
+      Bytes bops;
+      for (int i = 0; i < Tb * 4; i++) {
+        bops.push_back((char)g::pick(0, 2));
+        bops.push_back((char)(i & 1));
+      }
+      b.set("ops", bops);
+      b.set("gaps", g::rbytes((size_t)Tb, 0));
+      b.seti("cold", g::coin(1, 3));
+      return b;
+    }
     return c;
   });
 }
